@@ -55,7 +55,8 @@ fn stmts_for(path: &[String]) -> Vec<StmtT> {
 }
 
 fn spell(k: &str, style: u64) -> String {
-    match style % 3 {
+    let bare = !k.is_empty() && k.chars().all(|c| c.is_ascii_alphanumeric() || c == '_' || c == '-');
+    match if bare { style % 3 } else { 1 + style % 2 } {
         0 => k.to_string(),
         1 => format!("\"{k}\""),
         _ => format!("'{k}'"),
@@ -155,10 +156,36 @@ fn f12_shape(seq: &[&SemStmt]) -> bool {
     matches!(apply_statements(&owned), Err(SemErr::Invalid(r)) if r.starts_with("dotted key through array of tables"))
 }
 
+/// key names that can only be written quoted (a blank, a dot, the empty name): the same statements
+/// under a renaming of {a, b, c}; the definition rules see the renamed names too
+const NAMESETS: [[&str; 3]; 4] = [["a", "b", "c"], ["a b", "", "a.b"], ["a", "b", "c"], ["a.b", "b c", ""]];
+
+fn rename_path(p: &[String], ns: &[&str; 3]) -> Vec<String> {
+    p.iter().map(|k| match k.as_str() { "a" => ns[0], "b" => ns[1], "c" => ns[2], o => o }.to_string()).collect()
+}
+
+fn rename_val(v: &SemVal, ns: &[&str; 3]) -> SemVal {
+    match v {
+        SemVal::Scalar(n) => SemVal::Scalar(n.clone()),
+        SemVal::Array(a) => SemVal::Array(a.iter().map(|e| rename_val(e, ns)).collect()),
+        SemVal::Inline(p) => SemVal::Inline(p.iter().map(|(k, v)| (rename_path(k, ns), rename_val(v, ns))).collect()),
+    }
+}
+
 pub fn check_seq(seq: &[&SemStmt], style: u64, st: &mut Stats, known_f12: bool) -> Result<(), Failure> {
     st.eval();
-    let text = render(seq, style);
-    let owned: Vec<SemStmt> = seq.iter().map(|s| (*s).clone()).collect();
+    let ns = &NAMESETS[(style % 4) as usize];
+    let owned: Vec<SemStmt> = seq
+        .iter()
+        .map(|s| match s {
+            SemStmt::Header { path, aot } => SemStmt::Header { path: rename_path(path, ns), aot: *aot },
+            SemStmt::KeyVal { path, val } => SemStmt::KeyVal { path: rename_path(path, ns), val: rename_val(val, ns) },
+        })
+        .collect();
+    if ns[0] != "a" {
+        st.class("names-need-quotes");
+    }
+    let text = render(&owned.iter().collect::<Vec<_>>(), style);
     let verdict = apply_statements(&owned);
     let nt = nontrivial(seq);
     if nt {
